@@ -1,0 +1,6 @@
+//go:build !verif
+
+package knx
+
+// verifTrace is a no-op unless built with the "verif" tag (see verif_hooks.go).
+func verifTrace(string, ...int64) {}
